@@ -15,6 +15,8 @@ import JsonV.Lemmas.PointerOps
 import JsonV.Lemmas.PointerValid
 import JsonV.Lemmas.PointerStack
 import JsonV.Lemmas.PointerUtf8
+import JsonV.Lemmas.PointerSim
+import JsonV.Lemmas.PointerMachine
 
 namespace JsonV.Props.C16
 open JsonV JsonV.Model JsonV.Model.Pointer JsonV.Spec.Pointer JsonV.Lemmas.Pointer
@@ -111,19 +113,30 @@ example : lastToken (appendToken [0x2f, 0x61] [0x7e, 0x2f]) = [0x7e, 0x2f] := by
 
 /-! ### appendStackPointer -/
 
-/-- Reference token of a path step as `appendStackPointer` writes it (names pass through Go's `range`). -/
-def refToken : Ref → Bytes
-  | .name n => sanitize n
-  | .index i => decimal i
+/-- **stackptr_spec** (abstract (kind, count) stack): on every state reached by a token history, for
+where ∈ {-1, 0, +1}, the pointer assembled from the stack of (kind, count) entries and the names stack is the
+rendering of the declarative path (`refToken`: names as Go's `range` reads them — the identity on well-formed
+UTF-8 by `sanitize_valid` — and indices in base 10); in particular `Names.getUnquoted` never panics. -/
+theorem stackptr_spec (hist : List Tok) (w : Int) (s : AState) (hw : w = -1 ∨ w = 0 ∨ w = 1)
+    (hrun : AState.init.run hist = some s) :
+    ∃ path, pointerOf w hist = some path ∧ appendStackPointer s [] w = some (render (path.map refToken)) :=
+  Lemmas.Pointer.stackptr_spec hist w s hw hrun
 
-/-- FULL statement (not proved here; validated by Tie B: ops `ptr sp` = `ptr spec` = the running code for
-w ∈ {-1,0,+1} after random token histories): on every state reached by a token history, the pointer assembled
-from the (kind, count) stack and the names stack is the rendering of the declarative path. -/
-def stackptr_spec_full : Prop :=
-  ∀ (hist : List Tok) (w : Int) (s : AState), (w = -1 ∨ w = 0 ∨ w = 1) → AState.init.run hist = some s →
-    ∃ path, pointerOf w hist = some path ∧ appendStackPointer s [] w = some (render (path.map refToken))
+/-- **stackptr_spec on the packed state machine** (Model/State.lean, the 64-bit `stateEntry` words tied to the
+regenerated code by slice C06) with `Names` maintained as ReadToken/WriteToken do (push on '{', replace on a
+member name, pop on '}'): same statement, for histories shorter than 2^61 tokens (the width of the counter). -/
+theorem stackptr_spec_machine (max : Nat) (hist : List Tok) (hlen : hist.length < 2^61) (w : Int)
+    (hw : w = -1 ∨ w = 0 ∨ w = 1) (s : MState) (hrun : MState.run max {} hist = .ok s) :
+    ∃ path, pointerOf w hist = some path ∧ s.appendStackPointer [] w = some (render (path.map refToken)) :=
+  Lemmas.Pointer.stackptr_spec_machine max hist hlen w hw s hrun
 
-/-- PROVED part (where = -1, any stack whose entries all have a current child — every reachable state whose innermost
+/-- Non-vacuity on the packed machine: after `{"a/b":[1,2` the three positions are "/a~1b/1", "/a~1b" … -/
+example : ∃ s, MState.run 10000 {} [.beginObj, .str [0x61, 0x2f, 0x62], .beginArr, .scalar, .scalar] = .ok s ∧
+    s.appendStackPointer [] (-1) = some [0x2f, 0x61, 0x7e, 0x31, 0x62, 0x2f, 0x31] ∧
+    s.appendStackPointer [] 0 = some [0x2f, 0x61, 0x7e, 0x31, 0x62] ∧
+    s.appendStackPointer [] 1 = some [0x2f, 0x61, 0x7e, 0x31, 0x62, 0x2f, 0x32] := ⟨_, rfl, by decide, by decide, by decide⟩
+
+/-- Building block (where = -1, any stack whose entries all have a current child — every reachable state whose innermost
 container is non-empty): the assembled pointer is `b` followed by the rendering of the member names (as read by `range`)
 and of `Length()-1` for arrays, outermost first; no panic in `Names.getUnquoted`. -/
 theorem stackptr_partial (names : List Bytes) (es : List SEntry) (od : Nat) (b : Bytes)
